@@ -187,6 +187,18 @@ func (w *World) materialise(it Intent, h int64, idx int, sc *blockScratch) *TxPl
 		p.finish()
 		return p
 	}
+	if it.Kind == "bytes" {
+		// exact bytes of a signed transaction (second pass of the metamorphic check)
+		b, _ := hex.DecodeString(it.Raw)
+		p.Bytes = b
+		p.finish()
+		if p.Tx != nil {
+			p.Signer = ToAddr(p.Tx.From)
+		} else {
+			p.Garbage = true
+		}
+		return p
+	}
 	if it.Kind == "replay" {
 		if it.Replay >= 0 && it.Replay < len(w.History) {
 			p.Bytes = append([]byte(nil), w.History[it.Replay]...)
